@@ -306,7 +306,19 @@ def extract(lock_cls_name, maxcalls=22, interrupts=False):
     root = nodes[(first[0][0], first[0][2])]
     if len(info["expiry"]) != 1 or not all(isinstance(g, int) and g % TICK == 0 for _, g in info["expiry"]):
         info["flow_ok"] = False           # the expiry test is not a single comparison with a multiple of the model tick
-    return dict(nodes=nodes, edges=edges, root=root, assign_sites=info["assign"], expiry=sorted(info["expiry"]), compare_sites=info["compare"], flow_ok=info["flow_ok"],
+    # path property over the exhaustively enumerated environment traces: every call that can deliver journal bytes (write, flush, and
+    # close, which flushes) happens while this process holds the lock (after its successful create, before its release rename)
+    io_outside = set()
+    for tr in traces:
+        held = False
+        for (call, outcome, site) in tr:
+            if call == "create" and outcome == "ok":
+                held = True
+            elif call == "rename":
+                held = False
+            elif call in ("write", "flush", "close") and not held:
+                io_outside.add((call, tuple(x for x in site if isinstance(x, int))))
+    return dict(io_outside_lock=sorted(io_outside), nodes=nodes, edges=edges, root=root, assign_sites=info["assign"], expiry=sorted(info["expiry"]), compare_sites=info["compare"], flow_ok=info["flow_ok"],
                 conflicts=conflicts, conflict_samples=conflict_samples, paths=ex.stats.paths, wall_s=time.time() - t0, lock=lock_cls_name)
 
 
@@ -591,15 +603,27 @@ def replay(lock_cls_name, trace, K, crash, rounds=1):
 
         def __exit__(self, *a):
             sync("close")
+            if getattr(self, "dirty", False):
+                self._must_hold("close with buffered data")
+            self.dirty = False
             state["in_cs"].discard(tls.w["id"])
             return False
 
+        def _must_hold(self, what):
+            if tls.w["id"] not in state.get("holders", set()):
+                state["violations"].append(f"worker {tls.w['id']} delivers journal bytes ({what}) while it does not hold the lock")
+
         def write(self, b):
             sync("write")
+            self._must_hold("write")
+            self.dirty = True
             fs.journal += b
 
         def flush(self):
             sync("flush")
+            if getattr(self, "dirty", False):
+                self._must_hold("flush of buffered data")
+            self.dirty = False
 
         def fileno(self):
             return 3
